@@ -150,6 +150,7 @@ func (vc *VC) entry() {
 		}
 	}
 	vc.entryItems = len(vc.items)
+	vc.afterEntry = true
 }
 
 func (vc *VC) compileClause(env *Env, cl *Clause) (t string) {
